@@ -40,7 +40,7 @@ def parts(tier: str) -> List[Part]:
 def run_case(case: Dict[str, Any]) -> Outcome:
     out = Outcome()
     W, mf = case["W"], case["mf"]
-    res = (procman.run_manager_hosted if case.get("hosted") else procman.run_manager)(W, mf, case["h"], case["sd"], case.get("slow", ()))
+    res = (procman.run_manager_hosted if case.get("hosted") else procman.run_manager)(W, mf, case["h"], case["sd"], case.get("slow", ()), pidpool=case.get("pidpool", 0))
     an = pc.analyse(W, mf, res, out, "C18")
     out.clauses_checked = ["C18.b", "C18.c"]
     if res["status"] == "returned" and res["ret"] == -1 and mf < 1:
